@@ -12,35 +12,37 @@ import (
 	"go/token"
 	"os"
 	"path/filepath"
+	"reflect"
 	"sort"
 	"strconv"
 	"strings"
 )
 
 type facts struct {
-	consts        map[string]string   // name -> literal
-	errChanCap    map[string]int      // func -> capacity of `make(chan error, n)` (0 = unbuffered)
-	bareErrSends  []string            // "file:func" of `errc <- x` outside a select with ctx.Done()
-	guardedSends  []string            // functions calling sendErr
-	bareFeeder    []string            // bare `rootStream <- root`
-	handoverBare  []string            // sends on non-error channels outside a select with ctx.Done()
-	enablesVal    []string            // methods calling enableValidation()
-	testsDryrun   []string            // methods reading cfg.dryrun
-	validatesRoot []string            // exported funcs calling validateTreeRoot first
-	pkgVars       []string            // package-level vars (non-error sentinels, non-interface assertions)
-	pkgVarWrites  map[string][]string // var -> functions that call a method on / assign it
-	tagged        map[string]string   // file -> build constraint
-	sharpUnderLock bool
-	lastByIdentity bool
+	consts           map[string]string   // name -> literal
+	errChanCap       map[string]int      // func -> capacity of `make(chan error, n)` (0 = unbuffered)
+	bareErrSends     []string            // "file:func" of `errc <- x` outside a select with ctx.Done()
+	guardedSends     []string            // functions calling sendErr
+	bareFeeder       []string            // bare `rootStream <- root`
+	handoverBare     []string            // sends on non-error channels outside a select with ctx.Done()
+	enablesVal       []string            // methods calling enableValidation()
+	testsDryrun      []string            // methods reading cfg.dryrun
+	validatesRoot    []string            // exported funcs calling validateTreeRoot first
+	pkgVars          []string            // package-level vars (non-error sentinels, non-interface assertions)
+	pkgVarWrites     map[string][]string // var -> functions that call a method on / assign it
+	tagged           map[string]string   // file -> build constraint
+	sharpUnderLock   bool
+	lastByIdentity   bool
 	mainExitsNonZero bool
+	structTags       []string
 	exitHelpers      [][2]string
 	actionExits      []string
-	exitCodes     map[string]int
-	listSymbols   []string
-	spreadLocked  bool // defaultSpreaderPipeline.worker calls spreadBranch between Lock/Unlock
-	sendErrGuarded bool // sendErr selects on ctx.Done()
-	verifierMutates []string // os.* mutating calls reachable in verifier files
-	aliasPairs    map[string]bool // deprecated alias body identical to replacement
+	exitCodes        map[string]int
+	listSymbols      []string
+	spreadLocked     bool            // defaultSpreaderPipeline.worker calls spreadBranch between Lock/Unlock
+	sendErrGuarded   bool            // sendErr selects on ctx.Done()
+	verifierMutates  []string        // os.* mutating calls reachable in verifier files
+	aliasPairs       map[string]bool // deprecated alias body identical to replacement
 }
 
 func main() {
@@ -141,6 +143,34 @@ func (f *facts) scanFile(fset *token.FileSet, rel string, file *ast.File) {
 	for _, d := range file.Decls {
 		switch x := d.(type) {
 		case *ast.GenDecl:
+			if x.Tok == token.TYPE {
+				for _, sp := range x.Specs {
+					ts, ok := sp.(*ast.TypeSpec)
+					if !ok {
+						continue
+					}
+					st, ok := ts.Type.(*ast.StructType)
+					if !ok || !strings.HasSuffix(ts.Name.Name, "Node") || ts.Name.Name == "Node" {
+						continue
+					}
+					var tags []string
+					for _, fl := range st.Fields.List {
+						if fl.Tag != nil {
+							// the key under which the field is encoded (with its options, if any: `value,omitempty`)
+							t, _ := strconv.Unquote(fl.Tag.Value)
+							st := reflect.StructTag(t)
+							for _, enc := range []string{"json", "yaml", "toml"} {
+								if v, ok := st.Lookup(enc); ok {
+									tags = append(tags, v)
+								}
+							}
+						}
+					}
+					if len(tags) > 0 {
+						f.structTags = append(f.structTags, fmt.Sprintf("(%s, %s)", strconv.Quote(rel+":"+ts.Name.Name), leanStrList(tags)))
+					}
+				}
+			}
 			if x.Tok == token.CONST && file.Name.Name == "main" {
 				f.evalConstBlock(x)
 			}
@@ -484,6 +514,8 @@ func (f *facts) render() string {
 	sort.Strings(ec)
 	w("\n/-- cmd/gtree: the exit status of every helper that calls cli.Exit (constant expressions evaluated) -/\ndef cliExitCodes : List (String × Nat) := [%s]\n", strings.Join(ec, ", "))
 	w("/-- cmd/gtree: which function reports through which helper -/\ndef cliActionExits : List String := %s\n", leanStrList(uniq(f.actionExits)))
+	sort.Strings(f.structTags)
+	w("/-- field tags of the record types handed to the encoders -/\ndef formattedTags : List (String × List String) := [%s]\n", strings.Join(f.structTags, ", "))
 	w("def listSymbols : List String := %s\n", leanStrList(f.listSymbols))
 	w("def verifierMutatingCalls : List String := %s\n", leanStrList(uniq(f.verifierMutates)))
 	var al []string
